@@ -56,6 +56,23 @@ fn check_case(case: &Value) -> Option<Value> {
             }
         }
     }
+    // 2b. file appender described by a configuration value
+    {
+        let s = Scratch::new("env");
+        let p = format!("{}/c-{}.log", s.path().display(), input);
+        let v: serde_value::Value = serde_json::from_value(json!({"path": p})).unwrap();
+        match catch(|| log4rs::config::Deserializers::default().deserialize::<dyn log4rs::append::Append>("file", v)) {
+            Err(pn) => return Some(json!({"site": "file appender from configuration", "what": "panic", "error": pn})),
+            Ok(Err(e)) => return Some(json!({"site": "file appender from configuration", "what": "build failed", "error": e.to_string()})),
+            Ok(Ok(_a)) => {
+                let got = only_file(s.path());
+                let want = vec![format!("c-{}.log", expect)];
+                if got != want {
+                    return Some(json!({"site": "file appender from configuration", "what": "file location", "expected": want, "actual": got}));
+                }
+            }
+        }
+    }
     // 3. fixed-window roller (the index placeholder is substituted before expansion)
     if !input.contains("{}") {
         let s = Scratch::new("env");
